@@ -355,6 +355,12 @@ func (c *genctx) genResp() respSpec {
 func (c *genctx) genServerScenario(bad bool) *scenario {
 	r := c.r
 	sc := &scenario{cfg: srvCfg{maxStreams: r.pick(100, 100, 5, 3), maxHeaderList: r.pick(1<<20, 1<<20, 400), maxBody: r.pick(4<<20, 4<<20, 1500)}}
+	if r.chance(10) && sc.cfg.maxStreams == 100 && sc.cfg.maxHeaderList == 1<<20 {
+		// the configuration glue (Impl/ServerSetup.v): the same limits reached through defaults - zero / negative
+		// values given to ConfigureServer, or no ServerConfig at all (ConfigureServerAndConfig)
+		sc.cfg.maxStreams = 1024
+		sc.cfg.ctor = 1 + r.intn(2)
+	}
 	enc := newHenc(r)
 	nreq := 1 + r.intn(5)
 	if nreq > sc.cfg.maxStreams && !bad {
